@@ -14,8 +14,13 @@ static struct { int kind, base; uint64_t u; double d; const void * data; size_t 
                 int reader; size_t buflen; size_t cap; } S;
 static struct { int emitted, called, ok; uint64_t u; double d; float f; char * buf; size_t n; const char * bptr; void * arr; size_t cnt; int errs; } R;
 
+/* one response in four carries another item in front of the value under test ("7," - the value is then not the first item of its response:
+ * whatever a result writer does differently behind a delimiter is part of "the response data the library emits") */
+static int g_lead; static unsigned g_lead_turn;
 static scpi_result_t h_emit(scpi_t * c) {
     R.emitted++;
+    g_lead = (g_lead_turn++ & 3) == 3;
+    if (g_lead) SCPI_ResultInt32(c, 7);
     switch (S.kind) {
         case K_I8: SCPI_ResultInt8(c, (int8_t) S.u); break;
         case K_U8: SCPI_ResultUInt8Base(c, (uint8_t) S.u, S.base); break;
@@ -101,6 +106,10 @@ static int roundtrip(const char ** text, size_t * tlen) {
     n -= sizeof SCPI_LINE_ENDING - 1;
     vh_buf_reset(&msg);
     vh_buf_adds(&msg, "READ ");
+    if (g_lead) {
+        if (n < 2 || V->out.p[0] != '7' || V->out.p[1] != ',') { vh_violation("C07:emit-failed", "result kind %s behind another item: out=\"%s\" does not start with \"7,\"", kind_names[S.kind], vh_esc(V->out.p, n)); ctx_fresh(); return 0; }
+        vh_buf_add(&msg, V->out.p + 2, n - 2); n -= 2; vh_count("emit.value_behind_another_item_of_the_same_response", 1);
+    } else
     vh_buf_add(&msg, V->out.p, n);
     vh_buf_addc(&msg, '\n');
     if (text) { *text = msg.p + 5; *tlen = n; }
@@ -543,7 +552,7 @@ int main(int argc, char ** argv) {
         { "floating point", p6_count, p6_run }, { "ascii arrays", p7_count, p7_run }, { "ascii arrays longer than 32767 items", p8_count, p8_run }, { "long texts on a small task stack", p9_count, p9_run },
     };
     int rc;
-    vh_decoy_enable(7); vh_require("decoy.messages_run_on_a_second_context"); vh_require("int.roundtrips"); vh_require("text.roundtrips"); vh_require("text.with_double_quote"); vh_require("block.roundtrips");
+    vh_decoy_enable(7); vh_require("decoy.messages_run_on_a_second_context"); vh_require("int.roundtrips"); vh_require("emit.value_behind_another_item_of_the_same_response"); vh_require("text.roundtrips"); vh_require("text.with_double_quote"); vh_require("block.roundtrips");
     vh_require("block.empty"); vh_require("block.len_ge_1000"); vh_require("fp.double_roundtrips"); vh_require("fp.float_roundtrips"); vh_require("array.roundtrips");
     vh_require("int.negative64"); vh_require("text.long_on_small_task_stack"); vh_require("array.double_items_over_the_full_range"); vh_require("fp.power_of_two_or_neighbour"); vh_require("array.long.more_than_32768_items"); vh_require("array.long.more_than_65536_items");
     rc = vh_main(argc, argv, "C07", phases, 10);
